@@ -45,18 +45,6 @@ theorem winMap_shape (h : TypeId → Tok → Tok) (lo hi : Nat) (top : TypeId) (
   · exact hs p tok
   · rfl
 
-/-- the enclosing types depend on the shapes only -/
-theorem ctxAux_shape : ∀ (l l' : List Tok) (st : List TypeId),
-    l.map Tok.shape = l'.map Tok.shape → ctxAux st l = ctxAux st l'
-  | [], [], _, _ => rfl
-  | [], _ :: _, _, h => by simp at h
-  | _ :: _, [], _, h => by simp at h
-  | a :: l, b :: l', st, h => by
-    simp only [List.map_cons, List.cons.injEq] at h
-    obtain ⟨hab, hl⟩ := h
-    cases a <;> cases b <;> simp [Tok.shape] at hab <;>
-      simp [ctxAux, hab, ctxAux_shape l l' _ hl]
-
 theorem ctxOf_winMap (h : TypeId → Tok → Tok) (lo hi : Nat) (top : TypeId) (l : List Tok)
     (hs : ∀ p tok, (h p tok).shape = tok.shape) :
     ctxOf top (winMap h lo hi top l) = ctxOf top l :=
@@ -325,9 +313,6 @@ theorem removeMarkToks_eq_winMap (S : Schema) (m : Mark) (f t : Nat) (top : Type
   by_cases h : f ≤ i ∧ i < t
   · simp [h]
   · rw [if_neg h, if_neg (fun hc => h ⟨hc.1, hc.2.1⟩)]
-
-theorem sameMarkup_tyOf (S : Schema) (a b : Node) (h : a.sameMarkup b = true) : S.tyOf a = S.tyOf b := by
-  cases a <;> cases b <;> simp [Node.sameMarkup] at h <;> simp [Schema.tyOf, Node.tyOr, h]
 
 theorem splice_one_eq_winMap (h : TypeId → Tok → Tok) (top : TypeId) (L : List Tok) (pos : Nat) (x : Tok)
     (hp : pos < L.length) (hx : ∀ p, h p (L.getD pos Tok.cl) = x) :
